@@ -38,8 +38,9 @@ def body_int(case, ctx):
     if not got.ok:
         raise Violation("int-index:unexpected-refusal", i=i, got=got.brief(), form=form)
     v = got.value
-    if isinstance(v, np.ndarray) and v.ndim != 0:
-        raise Violation("int-index:result-kind", i=i, got=got.brief())
+    conv = lib(lambda: np.asarray(v))
+    if (isinstance(v, np.ndarray) and v.ndim != 0) or not conv.ok or conv.value.size != 1 or conv.value.dtype == object:
+        raise Violation("int-index:result-kind", i=i, got=got.brief(), form=form)
     if not same_scalar(np.asarray(v).item(), a[i].item()) or np.asarray(v).dtype != a.dtype:
         raise Violation("int-index:value", i=i, expected=jsonable(a[i]), got=jsonable(v))
 
